@@ -323,7 +323,23 @@ def normalize_serials(struct):
         if isinstance(t, list):
             return [go(x) for x in t]
         return t
-    return go(struct)
+
+    def resort(t):
+        """the factor order inside a monomial follows the terms' keys, which contain the serials: re-normalise after renumbering"""
+        if isinstance(t, tuple):
+            if t and t[0] == "poly":
+                r = ZERO
+                for m, c in t[1]:
+                    prod = ("int", c)
+                    for x in m:
+                        prod = sym.mul(prod, resort(x))
+                    r = sym.add(r, prod)
+                return r
+            return tuple(resort(x) for x in t)
+        if isinstance(t, list):
+            return [resort(x) for x in t]
+        return t
+    return resort(go(struct))
 
 
 def total_size(ops):
